@@ -2,7 +2,7 @@
 import ast
 
 from engine.index import AnalysisError
-from engine.helpers import (stmt_of, resolver, facts_at, lit_cmp, describe_facts, unparse, walk_no_nested, returns, deref, reaching_def,
+from engine.helpers import (parent_map, stmt_of, resolver, facts_at, lit_cmp, describe_facts, unparse, walk_no_nested, returns, deref, reaching_def,
                             body_only_aborts, is_abort_stmt)
 from engine.fold import EnumConst, Ref
 from engine import rx
@@ -37,7 +37,13 @@ LEVELS = [
 
 
 def _tok_set(ctx, fn, test):
-    """Token names tested by `tokens[0].token_type in [..]` or `== T`."""
+    """Token names tested by `tokens[0].token_type in [..]`, `== T`, or a chain `== A or == B` on the same subject."""
+    if isinstance(test, ast.BoolOp) and isinstance(test.op, ast.Or):
+        parts = [_tok_set(ctx, fn, v) for v in test.values]
+        lefts = {unparse(v.left) for v in test.values if isinstance(v, ast.Compare)}
+        if all(p is not None for p in parts) and len(lefts) == 1:
+            return frozenset().union(*parts)
+        return None
     if isinstance(test, ast.Compare) and len(test.ops) == 1 and 'token_type' in unparse(test.left):
         right = test.comparators[0]
         elts = right.elts if isinstance(right, (ast.List, ast.Tuple, ast.Set)) else [right]
@@ -281,14 +287,19 @@ def c07_3(ctx):
         if isinstance(n, ast.Assign) and isinstance(n.targets[0], ast.Name) and isinstance(n.value, ast.Call) \
                 and isinstance(n.value.func, ast.Name) and n.value.func.id in ('int', 'float') and len(n.value.args) == 1 \
                 and unparse(n.value.args[0]) == n.targets[0].id:
-            cl = facts_at(ctx, comp, n, res)
+            # the token types under which the conversion happens: the test of the innermost enclosing `if` branch taken
+            from engine.helpers import membership_view
+            pm_ = parent_map(comp.node)
             toks = set()
-            for c in cl:
-                for l in c:
-                    if l[0] == 'in' and l[-1] and 'token_type' in l[1]:
-                        lst = ast.parse(l[2], mode='eval').body
-                        for e in lst.elts:
-                            toks.add(unparse(e).split('.')[-1])
+            cur = n
+            while cur is not None:
+                par = pm_.get(id(cur))
+                if isinstance(par, ast.If) and any(cur is b for b in par.body):
+                    mv = membership_view(par.test)
+                    if mv is not None and 'token_type' in mv[0]:
+                        toks |= {unparse(e).split('.')[-1] for e in mv[1]}
+                        break
+                cur = par
             conv.setdefault(n.value.func.id, set()).update(toks)
     want_int = {'T_AND', 'T_OR', 'T_XOR', 'T_LEFT_SHIFT', 'T_RIGHT_SHIFT'}
     ctx.check(conv.get('int', set()) >= want_int, 'value:int-operands-for-bitwise', comp.site(),
